@@ -1,0 +1,28 @@
+//go:build verif
+
+package interp
+
+import "unsafe"
+
+// Verif hook events.
+const (
+	EvStart = iota
+	EvExit
+	EvRecvBefore
+	EvRecvAfter
+	EvSendBefore
+	EvSendAfter
+	EvBail
+	EvErrWrite
+	EvRead
+	EvParseExit
+)
+
+// VerifHook is called at instrumentation points when built with -tags verif.
+var VerifHook func(ev int, lexer uintptr)
+
+func verifPoint(l *lexer, ev int) {
+	if h := VerifHook; h != nil {
+		h(ev, uintptr(unsafe.Pointer(l)))
+	}
+}
